@@ -373,3 +373,126 @@ func VerifH_C06_Replies() {
 	verifThread("B", func() { cs.handleRequest() })
 	verifReach("replies-declared")
 }
+
+// VerifH_C06_OneReply (sequential): one frame with a symbolic tag against a
+// tag table with 0..2 in-flight tags.
+func VerifH_C06_OneReply() {
+	fs := &verifFS{}
+	_, cs := verifNewSession(fs, 0)
+	verifAssume(verifErrnoOf(cs.handle(&tattach{fid: 1, Auth: tauth{Authenticationfid: noFID}})) == 0)
+	nin := verifChoice(3)
+	inflight := make([]tag, nin)
+	for i := range inflight {
+		inflight[i] = tag(verifNondetU16())
+		for j := 0; j < i; j++ {
+			verifAssume(inflight[i] != inflight[j])
+		}
+		verifAssume(cs.StartTag(inflight[i]))
+	}
+	tg := verifNondetU16()
+	msgs := []message{&tgetattr{fid: 1, AttrMask: AttrMaskAll}, &tclunk{fid: 7}, &tstatfs{fid: 1}, &twalk{fid: 1, newFID: 2}}
+	m := msgs[verifChoice(len(msgs))]
+	w := &verifRecWriter{keep: true}
+	cs.t = &verifSegReader{data: verifFrame(tg, m)}
+	cs.r = w
+	cs.recvIdle = 1
+	ok := cs.handleRequest()
+	verifAssert(ok, "the connection stays up")
+	dup := false
+	for _, t := range inflight {
+		if t == tag(tg) {
+			dup = true
+		}
+	}
+	if dup {
+		verifReach("duplicate-tag-ignored")
+		verifAssert(len(w.data) == 0, "a request whose tag is already in flight gets no reply")
+	} else {
+		verifReach("replied")
+		verifAssert(len(w.data) >= 7 && int(verifLE32(w.data[0:4])) == len(w.data), "exactly one reply frame")
+		if len(w.data) >= 7 {
+			rt := w.data[4]
+			verifAssert(uint16(w.data[5])|uint16(w.data[6])<<8 == tg, "the reply carries the request's tag")
+			verifAssert(rt == uint8(m.typ())+1 || rt == 7, "the reply is the matching R-type or Rlerror")
+		}
+	}
+	// tag table afterwards = before
+	verifAssert(len(cs.tags) == nin, "tag table restored")
+	for _, t := range inflight {
+		_, still := cs.tags[t]
+		verifAssert(still, "other in-flight tags untouched")
+	}
+}
+
+// ---- C16: progress (dead-lock freedom), race freedom and isolation ----
+
+const verifC16NOps = 16
+
+func verifC16Op(op int, cs *connState, f verifFidSet) func() {
+	switch op {
+	case 0:
+		return func() { cs.handle(&twalk{fid: f.dir, newFID: f.newBase, Names: []string{"f"}}) }
+	case 1:
+		return func() { cs.handle(&twalk{fid: 1, newFID: f.newBase + 1, Names: []string{"d", "f"}}) }
+	case 2:
+		return func() { cs.handle(&twalk{fid: f.file, newFID: f.newBase + 2}) }
+	case 3:
+		return func() { cs.handle(&tlcreate{fid: f.dir, Name: "n", OpenFlags: ReadWrite, Permissions: 0644}) }
+	case 4:
+		return func() { cs.handle(&tunlinkat{Directory: f.dir, Name: "f"}) }
+	case 5:
+		return func() { cs.handle(&trenameat{OldDirectory: f.dir, OldName: "f", NewDirectory: f.dir, NewName: "r"}) }
+	case 6:
+		return func() { cs.handle(&trenameat{OldDirectory: f.dir, OldName: "f", NewDirectory: f.other, NewName: "x"}) }
+	case 7:
+		return func() { cs.handle(&trename{fid: f.file, Directory: f.other, Name: "y"}) }
+	case 8:
+		return func() { cs.handle(&tremove{fid: f.file}) }
+	case 9:
+		return func() { cs.handle(&tclunk{fid: f.file}) }
+	case 10:
+		return func() { cs.handle(&tclunk{fid: f.openFile}) }
+	case 11:
+		return func() { cs.handle(&tread{fid: f.openFile, Offset: 0, Count: 4}) }
+	case 12:
+		return func() { cs.handle(&tgetattr{fid: f.file, AttrMask: AttrMaskAll}) }
+	case 13:
+		// fid-replacing walk: newfid is already bound (to the file)
+		return func() { cs.handle(&twalk{fid: f.dir, newFID: f.file, Names: []string{"f"}}) }
+	case 14:
+		return func() { cs.stop() }
+	}
+	return func() { cs.handle(&tmkdir{Directory: f.other, Name: "q", Permissions: 0755}) }
+}
+
+// VerifH_C16_Pairs: two concurrent requests (or a request and the teardown of
+// a connection) per scenario, on two connections of one server; thread A on
+// connection 1, thread B on connection 2 (relation 0) or on connection 1 with
+// a disjoint fid set (relation 1).
+func VerifH_C16_Pairs() {
+	sc := verifParam("scenario", 0)
+	opA := sc % verifC16NOps
+	opB := (sc / verifC16NOps) % verifC16NOps
+	rel := sc / (verifC16NOps * verifC16NOps)
+	fs, _, cs1, cs2, a, b := verifSchedSetup()
+	cs1.t, cs1.r = &verifNopCloser{}, &verifNopCloser{}
+	cs2.t, cs2.r = &verifNopCloser{}, &verifNopCloser{}
+	if opA == 14 {
+		// a connection tears down while the OTHER one works: A is never the teardown of its own peer's connection
+		verifReach("skip")
+		return
+	}
+	csB, fb := cs2, a
+	if rel == 1 {
+		if opB == 14 {
+			verifReach("skip")
+			return
+		}
+		csB, fb = cs1, b
+	}
+	fs.sched = true
+	ta, tb := verifC16Op(opA, cs1, a), verifC16Op(opB, csB, fb)
+	verifThread("A", ta)
+	verifThread("B", tb)
+	verifReach("pair-declared")
+}
